@@ -107,6 +107,17 @@ def _plan(draw):
         # can hold missing values must still report those cells missing
         kw["raw_nan"] = draw(st.sampled_from(["str", "object"]))
         kw.pop("dtypes", None)
+    if fmt in ("geojson", "lod_json") and n >= 2 and draw(st.integers(0, 2)) == 0:
+        # files not written by the library itself: the first feature(s) / item(s) lack some of the properties / keys
+        # (every property still occurs in the last feature, so that naming it stays meaningful)
+        kw["ragged"] = [draw(st.integers(1, n - 1)), [nm for nm in names if draw(st.booleans())]]
+    if fmt == "lod_json" and draw(st.integers(0, 1)) == 0:
+        # one key holding equal values of different types (1, 1.0, true): a converter such as str tells them apart
+        j = draw(st.integers(0, k - 1))
+        cols[j]["kind"] = "m"
+        cols[j]["vals"] = [draw(st.sampled_from([1, 1.0, True, 0, 0.0, False, 2.5, -0.0])) for _ in range(n)]
+        if names[j] in kw.get("columns", names):
+            kw.setdefault("dtypes", {})[names[j]] = "str"
     if fmt == "lod_json" and draw(st.integers(0, 2)) == 0:
         kw["nested"] = True
         kw.get("dtypes", {}).pop(names[-1], None)
@@ -133,7 +144,7 @@ _DT = {"float": float, "str": str, "object": object, "datetime64[us]": "datetime
 def _write(plan, ctx):
     fmt, fp, kw = plan["fmt"], plan["frame"], plan["kw"]
     enc = kw.get("encoding", "utf-8")
-    data = build.frame(fp, rid=None)
+    data = build.frame(fp, rid=None) if fmt in ("csv", "json", "parquet", "npz") else None
     if fmt == "csv":
         path = ctx.path("t.csv")
         data.write_csv(path, encoding=enc, sep=kw.get("sep", ","), header=kw.get("header", True))
@@ -151,12 +162,17 @@ def _write(plan, ctx):
         feats = []
         for i in range(fp["n"]):
             props = {c["name"]: c["vals"][i] for c in fp["cols"]}
+            if kw.get("ragged") and i < kw["ragged"][0]:
+                props = {k_: v_ for k_, v_ in props.items() if k_ not in kw["ragged"][1]}
             feats.append({"type": "Feature", "properties": props, "geometry": {"type": "Point", "coordinates": [i, 0]}})
         with open(path, "w", encoding=enc) as f:
             json.dump({"type": "FeatureCollection", "features": feats, "name": "t"}, f, ensure_ascii=False)
     elif fmt == "lod_json":
         path = ctx.path("l.json")
         items = [{c["name"]: c["vals"][i] for c in fp["cols"]} for i in range(fp["n"])]
+        if kw.get("ragged"):
+            items = [{k_: v_ for k_, v_ in it.items() if not (i < kw["ragged"][0] and k_ in kw["ragged"][1])}
+                     for i, it in enumerate(items)]
         if kw.get("nested"):
             for i, it in enumerate(items):
                 # a nested object whose inner keys overlap the outer key names
@@ -319,6 +335,8 @@ def _reference_only(plan, method, path):
                     d[k] = types[t](d[k])
             out.append(d)
         return out
+    for cn in casts:
+        full[cn]                                   # casting a column that is not there fails in the reference too
     return {cn: (di.Vector(full[cn], _DT[casts[cn]]) if cn in casts else full[cn])
             for cn in dict.keys(full) if want_names is None or cn in want_names}
 
